@@ -25,6 +25,7 @@ def TagOK (prov : α → Prov σ) (sn : σ) (c : Conn α) (sid : Nat) (it : Item
       ((c.cfg.jsonResponse = true ∧ (sid = 0 ∨ listenOf c sid)) ∨ (c.cfg.jsonResponse = false ∧ c.born sid = some post))
   | .detached ps => ps = sn ∧ (∀ id p, it.msg ≠ .resp id p) ∧ (sid = 0 ∨ listenOf c sid)
   | .server => (∀ id p, it.msg ≠ .resp id p) ∧ (sid = 0 ∨ listenOf c sid)
+  | .fanout _ _ _ _ => (∀ id p, it.msg ≠ .resp id p) ∧ (sid = 0 ∨ listenOf c sid)
   | .other => False
 
 theorem listenOf_ext {c c' : Conn α} (h : Ext c c') {sid : Nat} (hl : listenOf c sid) : listenOf c' sid := by
@@ -57,6 +58,12 @@ theorem tagOK_pmono (prov : α → Prov σ) (sn : σ) : PMono (TagOK prov sn) :=
     rcases h.2 with h0 | hl
     · exact Or.inl h0
     · exact Or.inr (listenOf_ext hext hl)
+  · rename_i ps req post hctx hp
+    rw [hp] at h
+    refine ⟨h.1, ?_⟩
+    rcases h.2 with h0 | hl
+    · exact Or.inl h0
+    · exact Or.inr (listenOf_ext hext hl)
   · rename_i hp; rw [hp] at h; exact h
 
 /-- the tag of a notification / server→client request written with context `ctx` -/
@@ -65,6 +72,7 @@ def TagNR (prov : α → Prov σ) (sn : σ) (c : Conn α) (p : α) (ctx : Option
   | .inReq ps req post => ps = sn ∧ ctx = some req ∧ ∀ sid, c.reqStreams req = some sid → c.born sid = some post
   | .detached ps => ps = sn ∧ ctx = none
   | .server => ctx = none ∨ ∃ r, ctx = some r ∧ ∀ sid, c.reqStreams r = some sid → listenOf c sid
+  | .fanout _ _ _ _ => ctx = none      -- a fan-out copy is written with the background context in every session
   | _ => False
 
 /-- **well-tagged write labels**: the tag names the request and the POST exchange that currently carries it
@@ -152,6 +160,12 @@ theorem route_tagNR {prov : α → Prov σ} {sn : σ} {c : Conn α} (h10 : Inv10
         exact route_related_none h10 hrel hr
       · subst hr1
         exact Or.inr (hr2 s.id (route_related_some hrel hr))
+  · rename_i ps req post hctx hpv
+    rw [hpv]
+    refine ⟨hnr, ?_⟩
+    subst hl
+    have : related c msg none = none := by rw [hrel]; split <;> rfl
+    exact route_related_none h10 this hr
   · exact absurd hl id
 
 /-- a well-tagged write lands on a stream its tag is consistent with -/
